@@ -114,7 +114,7 @@ Rec(ct, nn) == [k |-> "rec", ct |-> ct, nonce |-> nn]
 Man(m) == [k |-> "man", m |-> m]
 Shr(m) == [k |-> "shr", shards |-> m.shards, t |-> m.t]
 Tru(p, m) == [k |-> "tru", p |-> p, own |-> m]
-NoLast == [op |-> "init", c |-> 0, ok |-> FALSE, out |-> <<>>, genuine |-> TRUE, changed |-> FALSE, tampered |-> FALSE, fallback |-> FALSE]
+NoLast == [op |-> "init", c |-> 0, ok |-> FALSE, out |-> <<>>, genuine |-> TRUE, changed |-> FALSE, tampered |-> FALSE, fallback |-> FALSE, replaced |-> FALSE]
 
 MInit == /\ held = [c \in Ids |-> None] /\ cache = [c \in Ids |-> None] /\ shardrec = [c \in Ids |-> None]
          /\ prov = [c \in Ids |-> FALSE] /\ truth = [c \in Ids |-> None] /\ meddled = [c \in Ids |-> FALSE]
@@ -147,7 +147,8 @@ Import(c, kind, d, e) ==
           ELSE /\ held' = IF DevStoreBeforeVerify THEN [held EXCEPT ![c] = Rec(r.ct, r.m.nonce)] ELSE held
                /\ UNCHANGED <<cache, shardrec, prov, truth, meddled>>
        /\ last' = [NoLast EXCEPT !.op = "import", !.c = c, !.ok = acc, !.out = IF acc THEN pt ELSE <<>>, !.genuine = r.genuine,
-                                 !.changed = (<<held', cache', shardrec', prov'>> # <<held, cache, shardrec, prov>>), !.tampered = (kind # "none")]
+                                 !.changed = (<<held', cache', shardrec', prov'>> # <<held, cache, shardrec, prov>>), !.tampered = (kind # "none"),
+                                 !.replaced = (acc /\ truth[c] # None /\ truth[c].p # pt)]
        /\ hist' = Append(hist, [op |-> "import", c |-> c, kind |-> kind, d |-> d, e |-> e])
 
 \* ingest_manifest / handle_announce / request_chunk: no look at what the node holds
@@ -213,7 +214,6 @@ Reach_MeddledFetch == ~(last.op = "fetch" /\ truth[LC] # None /\ meddled[LC] /\ 
 Reach_MeddledMiss == ~(last.op = "fetch" /\ truth[LC] # None /\ meddled[LC] /\ ~last.ok)
 Reach_TamperedButGenuine == ~(last.op = "import" /\ last.tampered /\ last.genuine /\ last.out # <<>>)
 Reach_TamperedRefused == ~(last.op = "import" /\ last.tampered /\ ~last.ok)
-Reach_ReplacedByOtherContent == ~(last.op = "import" /\ last.ok /\ truth[LC] # None /\ held[LC] # None /\ hist # <<>> /\
-                                  \E i \in 1 .. Len(hist) - 1 : hist[i].op = "store" /\ ToyPayload(hist[i].d.p) # last.out)
+Reach_ReplacedByOtherContent == ~(last.op = "import" /\ last.ok /\ last.replaced)
 Reach_FallbackHit == ~(last.op = "fetch" /\ last.ok /\ last.fallback)
 =============================================================================
